@@ -28,7 +28,9 @@ streams (through the Lean driver)
 document level (extra_checks, stream `pair`)
   generated LaTeX documents A1..Ak;B (k<=4) processed in ONE fresh python subprocess; B (and every Ai)
   also processed ALONE in its own fresh subprocess; three entry points: TeX.input/parse, the same plus Renderer.render,
-  and plasTeX.Compile.run on a file (what the `plastex` command calls); canonicalised toXML() (generated ids renumbered),
+  and plasTeX.Compile.run on a file (what the `plastex` command calls); documents are projects (main.tex plus the files it reads by
+  relative name: \\input files, a local .sty, an image, main.aux/main.bbl for natbib, the same names in every project); around EVERY document
+  every data attribute of every plasTeX class and every plasTeX module global is snapshotted: none may change (class_state); canonicalised toXML() (generated ids renumbered),
   rendered HTML5 files for a part of the histories, and the class-attribute snapshot are compared.
 """
 import os, sys, re, json, logging, subprocess, tempfile, shutil, random as _random
@@ -56,7 +58,9 @@ LEVEL_NOTE = ('Trusted: Lean kernel, harness/extract.py (class defaults read at 
               'CPython. Modelled not verified: sys.modules/package import caching, logging configuration, os.environ juggling in kpsewhich, '
               'the renderer internals (observed only through the rendered files of the pair stream).')
 TECHNIQUE = 'Lean 4 proof (invariant over event folds, per-variant frame lemmas) + regenerated class defaults + differential correspondence + fresh-subprocess pair oracle'
-TRUSTED = ['Model.Holders.reachList (the executable reachability the driver uses) is not proved equal to the inductive Reach of the theorem; '
+TRUSTED = ['the class-state differ summarises containers to depth 3 and other objects by their class: a change deeper inside an object stored on a '
+           'class is only seen through the results of later documents',
+           'Model.Holders.reachList (the executable reachability the driver uses) is not proved equal to the inductive Reach of the theorem; '
            'the holders stream compares it with the observed interference on real object graphs',
            'toXML()/HTML5 rendering equality of real documents is carried by the pair stream (subprocess oracle), not by a theorem',
            'the list of class-level attributes was established by reading the code; an attribute outside it is only seen by the pair stream']
@@ -274,7 +278,12 @@ def worker_main():
             res.append(run_event_doc(words, base))
         print(json.dumps(res))
     elif job['kind'] == 'latex':
-        res = [run_latex_doc(d['src'], d.get('render', False)) for d in job['docs']]
+        res = []
+        for d in job['docs']:
+            before = class_state()
+            r = run_latex_doc(d['src'], d.get('render', False))
+            r['classdiff'] = class_state_diff(before, class_state(), job.get('bits', '00000'))
+            res.append(r)
         print(json.dumps(res))
 
 
@@ -1109,6 +1118,67 @@ def canon_text(s):
     return re.sub(r'\ba(\d{10})\b', lambda m: 'ID%d' % seen.setdefault(m.group(1), len(seen)), s)
 
 
+# ---------------------------------------------------------------- every class attribute and module global of plasTeX
+
+def _summ(o, d=0):
+    """address-free summary of a value: containers to depth 3, other objects by their class"""
+    import types
+    if isinstance(o, (str, bytes, int, float, bool, type(None))): return repr(o)[:60]
+    if isinstance(o, type): return 'class ' + o.__name__
+    if isinstance(o, (list, tuple)): return type(o).__name__ + '[' + (','.join(_summ(x, d + 1) for x in o[:60]) if d < 3 else str(len(o))) + ']'
+    if isinstance(o, (set, frozenset)): return 'set{' + ','.join(sorted(_summ(x, d + 1) for x in list(o)[:60])) + '}'
+    if isinstance(o, dict):
+        return 'dict{' + (','.join(sorted('%s:%s' % (_summ(k, d + 1), _summ(v, d + 1)) for k, v in list(o.items())[:100])) if d < 3 else str(len(o))) + '}'
+    if isinstance(o, (types.FunctionType, types.BuiltinFunctionType, types.MethodType, classmethod, staticmethod, property)): return 'fn'
+    return 'obj ' + type(o).__name__
+
+
+def class_state():
+    """{'module:Class.attr' | 'module:global' -> summary} over every loaded plasTeX module: all data attributes of all classes
+    (nested ones too) and all module-level containers.  This is the whole interpreter-wide state a document could change."""
+    snap = {}
+    for mname, mod in sorted(sys.modules.items()):
+        if not mname.startswith('plasTeX') or mod is None:
+            continue
+        for k, v in list(vars(mod).items()):
+            if isinstance(v, type) and v.__module__ == mname:
+                todo = [(mname + ':' + v.__qualname__, v)]
+                while todo:
+                    cn, c = todo.pop()
+                    for a, x in list(vars(c).items()):
+                        if a.startswith('__') and a.endswith('__'):
+                            continue
+                        if isinstance(x, type):
+                            if x.__qualname__.startswith(c.__qualname__ + '.'):
+                                todo.append((mname + ':' + x.__qualname__, x))
+                            else:
+                                snap[cn + '.' + a] = 'class ' + x.__name__
+                        else:
+                            t = _summ(x)
+                            if t != 'fn':
+                                snap[cn + '.' + a] = t
+            elif isinstance(v, (dict, list, set)) and not k.startswith('__'):
+                snap[mname + ':' + k] = _summ(v)
+    return snap
+
+
+# not parsing state, or recorded known findings (left open only while the code still has them)
+def class_state_allowed(key, bits):
+    if key == 'plasTeX.Logging:_loggers':
+        return True
+    if key.endswith('.value') and bits[2] == '0':                    # D6c: register values on the command classes
+        return True
+    if key.endswith(':ColumnType.columnTypes') and bits[4] == '0':    # D6e
+        return True
+    return False
+
+
+def class_state_diff(before, after, bits):
+    """attributes that existed before the document and have another value after it"""
+    return ['%s: %s -> %s' % (k, before[k][:80], after[k][:80]) for k in sorted(before)
+            if k in after and before[k] != after[k] and not class_state_allowed(k, bits)]
+
+
 FILE_MARK = '%%C17FILE '
 
 
@@ -1371,7 +1441,13 @@ class LatexGen:
             if 'graphicx' not in self.pkgs:
                 pre += '\\usepackage{graphicx}\n'
             body.append('\\includegraphics{fig}\n\n')
-        if rng.random() < 0.15:
+        if 'natbib' in self.pkgs and rng.random() < 0.7:
+            who, year = self.w(), 1990 + rng.randint(0, 30)
+            files['main.aux'] = ('\\relax\n\\citation{N1}\n\\bibdata{refs}\n\\bibcite{N1}{{1}{%d}{{%s}}{{}}}\n\\bibstyle{plainnat}\n' % (year, who))
+            files['main.bbl'] = ('\\begin{thebibliography}{1}\n\\bibitem[%s(%d)]{N1}\n%s.\n\\newblock %s.\n\\end{thebibliography}\n'
+                                 % (who, year, who, self.w()))
+            body.append('As shown by \\citet{N1}, and later \\citep{N1}.\n\\bibliographystyle{plainnat}\n\\bibliography{refs}\n')
+        elif rng.random() < 0.15:
             files['main.bbl'] = '\\begin{thebibliography}{9}\n\\bibitem{B0} %s\n\\bibitem{K1} %s\n\\end{thebibliography}\n' % (self.para(), self.w())
             body.append('As shown in \\cite{K1}.\n\\bibliography{refs}\n')
         src = pre + '\\begin{document}\n' + ''.join(body)
@@ -1405,12 +1481,19 @@ _alone = {}
 
 def check_history(srcs, render, init_snap):
     """srcs = [A1..Ak, B]; returns (why, details) or (None, None)"""
-    seq = run_worker({'kind': 'latex', 'docs': [{'src': s, 'render': render} for s in srcs]})
+    bits = variant_bits()
+    seq = run_worker({'kind': 'latex', 'bits': bits, 'docs': [{'src': s, 'render': render} for s in srcs]})
     for i, s in enumerate(srcs):
         key = (s, render)
         if key not in _alone:
-            _alone[key] = run_worker({'kind': 'latex', 'docs': [{'src': s, 'render': render}]})[0]
+            _alone[key] = run_worker({'kind': 'latex', 'bits': bits, 'docs': [{'src': s, 'render': render}]})[0]
         alone = _alone[key]
+        # no attribute of any plasTeX class and no plasTeX module global may change while a document is processed
+        # (apart from the recorded known findings): checked for the document in the history and for the document alone
+        for r, where in ((seq[i], 'in the history'), (alone, 'alone in a fresh interpreter')):
+            if r.get('classdiff'):
+                return ('document %d of %d (%s): interpreter-wide state (class attributes / module globals) changed while it was processed: %s'
+                        % (i + 1, len(srcs), where, ' ; '.join(r['classdiff'][:4]))), {}
         why = compare_docs(seq[i], alone)
         if why:
             det = first_diff(seq[i].get('xml', ''), alone.get('xml', '')) if seq[i].get('xml') != alone.get('xml') else {}
@@ -1436,6 +1519,8 @@ def pair_checks(ctx, rng, n, n_render):
             b = rng.choice(hist)        # the same input twice
         # entry point: the API without rendering, the API with the HTML5 renderer, or plasTeX.Compile.run on a file
         jobs.append((hist + [b], True if i < n_render else 'compile' if i < n_render + n_render // 2 else False))
+    da, db = dense_project('Alpha', 1994), dense_project('Beta', 2001)
+    jobs += [([da, db], True), ([db, db], False), ([da, db], 'compile')]        # fixed histories: every mechanism, every run
     viol, samples, distinct = [], [], set()
     with ThreadPoolExecutor(max_workers=min(12, os.cpu_count() or 4)) as ex:
         results = list(ex.map(lambda j: check_history(j[0], j[1], init_snap), jobs))
@@ -1465,6 +1550,29 @@ def shrink_history(srcs, render, init_snap):
         else:
             i += 1
     return cur
+
+
+def dense_project(tag, year):
+    """a fixed project that uses every file-reading and table/list/math mechanism at once (same job name `main`, same relative file
+    names in every project, contents depending on `tag`): run in every check so that no mechanism depends on the seed to be exercised"""
+    files = {
+        'intro.tex': 'Introduction of %s with $x_%s$ and \\emph{%s}.\n' % (tag, tag, tag),
+        'mystyle.sty': '\\newcommand{\\projname}{%s}\n' % tag,
+        'fig.png': 'PNG ' + tag,
+        'main.aux': '\\relax\n\\citation{N1}\n\\bibdata{refs}\n\\bibcite{N1}{{1}{%d}{{Author%s}}{{}}}\n\\bibstyle{plainnat}\n' % (year, tag),
+        'main.bbl': '\\begin{thebibliography}{1}\n\\bibitem[Author%s(%d)]{N1}\nAuthor%s.\n\\newblock Title %s.\n\\end{thebibliography}\n' % (tag, year, tag, tag),
+    }
+    main = ('\\documentclass{article}\n\\usepackage{ifthen}\\usepackage{natbib}\\usepackage{graphicx}\\usepackage{longtable}\\usepackage{amsmath}\\usepackage{mystyle}\n'
+            '\\newcommand{\\mycmd}[1]{[#1]}\\newcounter{mycnt}\n\\begin{document}\n\\section{One %s}\\label{L0}\n\\input{intro}\nProject \\projname, see \\ref{L1} and \\ref{E2}.\n'
+            'As shown by \\citet{N1}, and later \\citep{N1}.\n\n\\includegraphics{fig}\n\n'
+            '\\begin{eqnarray}a & = & b \\label{E1} \\\\ c & = & d \\label{E2}\\end{eqnarray}\n\\begin{eqnarray*}x & = & y\\end{eqnarray*}\n'
+            '\\begin{align}a &= b \\\\ c &= d\\end{align}\n'
+            '\\begin{tabular}{l|c|p{2cm}}a & $b$ & c\\\\ \\hline d & e & f\\end{tabular}\n\n'
+            '\\begin{longtable}{lc}\\caption{Cap %s}\\\\ h & h \\\\ \\endhead x & y \\\\ z & w\\end{longtable}\n'
+            '\\begin{enumerate}\\item a \\begin{itemize}\\item b $z$\\end{itemize}\\item c\\end{enumerate}\n'
+            '\\section{Two}\\label{L1}\n\\ifthenelse{\\(1<2\\) \\and \\not \\(3<2\\)}{yes $y$}{no} \\hbox{q $z$ r} \\openout\\vout=f \\hskip 1truein\\relax \\vskip\\parskip\\relax\n'
+            '\\stepcounter{mycnt}\\themycnt\\ \\footnote{F %s} \\index{%s}\n\\bibliographystyle{plainnat}\n\\bibliography{refs}\n\\printindex\n\\end{document}\n' % (tag, tag, tag, tag))
+    return ''.join('%s%s\n%s%%%%C17END\n' % (FILE_MARK, n, files[n]) for n in sorted(files)) + main
 
 
 LATEX_WITNESS = {
